@@ -1562,7 +1562,7 @@ class BSP:
         # First, go through lumps the user has accessed, and rebuild their data.
         for lump_or_game in LUMP_REBUILD_ORDER:
             try:
-                data = self._parsed_lumps.pop(lump_or_game)
+                data = self._parsed_lumps[lump_or_game]
             except KeyError:
                 pass
             else:
@@ -1577,6 +1577,9 @@ class BSP:
                     result = lump_result
                 else:
                     raise ValueError(lump_result)
+                # Only now discard the parsed form. If writing the lump failed, it must still
+                # be there afterwards, or saving again would write out an empty lump.
+                del self._parsed_lumps[lump_or_game]
                 if isinstance(lump_or_game, BSP_LUMPS):
                     self.lumps[lump_or_game].data = result
                 else:
